@@ -30,9 +30,10 @@ CORPUS = [
     "func()", "func(int) string", "func(int, ...string) (int, error)", "func(...*int)", "func(func(int) string) func()",
     "struct{}", "struct{ A int }", 'struct{ A int "x:1" }', 'struct{ A int `json:"a,omitempty"`; b string "k" }', "struct{ p.T }", "struct{ *p.T; q.U }",
     "struct{ a int; B *p.T }", "struct{ _ int }", "interface{}", "interface{ M() int }", "interface{ M() int; k() }", "interface{ p.K }", "interface{ p.Ka; q.Kb }",
-    "p.T", "*p.T", "p.E", "p.Ptr", "*p.Ptr", "**p.Ptr", "[]p.Ptr", "p.Fn", "p.Sl", "p.Mp", "p.I", "p.J", "p.K", "p.Mix", "p.MixT", "*p.MixT", "p.Em", "*p.Em",
+    "p.T", "*p.T", "p.E", "p.Ptr", "*p.Ptr", "**p.Ptr", "[]p.Ptr", "p.Fn", "p.Sl", "p.Mp", "p.I", "p.J", "p.K", "p.Mix", "p.MixT", "*p.MixT", "p.UniT", "*p.UniT", "p.Uni", "p.Ch", "p.Em", "*p.Em",
     "p.AT", "p.AI", "struct{ p.AT }", "p.G[int]", "p.G[*int]", "p.G[p.T]", "p.G[q.T]", "p.G[[]p.T]", "p.G[map[string]*q.T]", "p.G[p.G[int]]", "p.H[string, p.Ptr]", "*p.G[string]",
     "p.G[interface{ M() int }]", "p.G[any]", "p.G[error]", "p.G[chan (<-chan int)]", "p.G[map[*int]bool]", "T", "*T", "G[T]", "G[q.T]", "Mix", "MixT", "Ptr", "*Ptr",
+    'struct{ F func(); A int `json:"a"` }', 'struct{ A int "x:1"; F func(int) string; b string "k" }', 'struct{ A int "x:1"; G [2]func() }',
     "struct{ _ [0]func(); x int }", "[2]struct{ _ [0]func(); x int }", "struct{ F struct{ _ [0]func(); x int }; G int }", "struct{ x int; _ [0]func() }",
     "struct{ lo, hi uint32; _ [0]uint64 }", "struct{ _ [0]func(); b bool }", "struct{ b bool; _ [0]complex128 }", "struct{ _ [0]*int; b uint8 }",
     "struct{ _ int; x int }", "struct{ _ string }", "struct{ _ []int }", "struct{ _ func() }", "struct{ _ map[int]int; a int }", "struct{ _ struct{}; a int8 }",
@@ -44,7 +45,7 @@ CORPUS = [
 
 def package_source(pkg, decls, name=None, extra_imports=()):
     imports = ['import "unsafe"'] + ['import %s "%s/%s"' % (i, tg.MOD, i) for i in {"p": [], "q": ["p"], "r": ["p", "q"]}[pkg]] + ['import "%s"' % i for i in extra_imports]
-    uses = ["var _ unsafe.Pointer"] + ["var _ %s.T" % i for i in {"p": [], "q": ["p"], "r": ["p", "q"]}[pkg]]
+    uses = ["var _ unsafe.Pointer", "const pkgID = %d" % (["p", "q", "r"].index(pkg) + 1)] + ["var _ %s.T" % i for i in {"p": [], "q": ["p"], "r": ["p", "q"]}[pkg]]
     return "package %s\n\n%s\n\n%s\n%s\n%s\n" % (name or pkg, "\n".join(imports), "\n".join(uses), tg.PRELUDE_COMMON, "\n".join(decls))
 
 
@@ -229,6 +230,7 @@ def run(ctx, args):
                                  "uncommon": hf[7] == "1", "pkgpath": unhexs(hf[8]), "xcount": int(hf[9]),
                                  "cmp": hf[10].split(",")[0] == "1", "align": int(hf[10].split(",")[1]), "falign": int(hf[10].split(",")[2]),
                                  "size": int(hf[10].split(",")[3]), "fbv": hf[10].split(",")[4] == "1",
+                                 "rawsyms": None if hf[11] == "R:-" else [unhexs(x).decode() for x in hf[11][2:].split(",")],
                                  "M": parts[0].split(), "F": parts[1][2:].split(), "IM": parts[2][3:].split(), "term": parts[3], "mset": parts[4]}
         elif line.startswith("pkg ") or line.startswith("under "):
             envlines.append(line)
@@ -425,6 +427,19 @@ def ir_tie(ctx, types_, descs, stats, corr_bad, oracle):
         dd = descs[i]
         # &V_i is kept: the pointer type's descriptor references the element's, which is the type under test
         e = ir.get(dd["sym"])
+        if e is None and dd["rawsyms"]:
+            # a struct with tags and a func-typed field is emitted in its lowered form (func -> closure struct)
+            with_tags, without = ir.get(dd["rawsyms"][0]), ir.get(dd["rawsyms"][1])
+            want_tags = [unhexs(dd["F"][k + 1]) for k in range(0, len(dd["F"]), 4)]
+            stats["ir-tie:tagged-struct-with-func-field"] = stats.get("ir-tie:tagged-struct-with-func-field", 0) + 1
+            if with_tags is not None and [f[3] for f in (with_tags["fields"] or [])] == want_tags:
+                compared += 1
+                continue
+            if without is not None and with_tags is None:
+                compared += 1
+                ctx.report("emit:tags-dropped-with-func-field", "the emitted descriptor of a struct with a func-typed field has lost all field tags",
+                           {"type": types_[i][1], "emitted_symbol": dd["rawsyms"][1], "emitted_tags": str([f[3] for f in (without["fields"] or [])]), "declared_tags": str(want_tags)})
+                continue
         if e is None:
             missing += 1
             continue
